@@ -181,13 +181,21 @@ def can_choose_base(rep, mod, rule):
                 head = t
         inner = [(c, t) for c, t, p in ps.order if c.startswith('ITER(') and E in c]
         hit = None
+        ANY = ['any((c0 is %s for c0 in %s))' % (base, E),
+               'any((%s is c0 for c0 in %s))' % (base, E),
+               'any([c0 is %s for c0 in %s])' % (base, E)]
+        TAIL = ['%s in %s[1:]' % (base, E)]      # equality, not identity: rejected below
         for c, t, p in ps.order:
             if c.startswith('EACH(') and c.endswith(' is %s' % base) and E in c:
                 hit = t
             elif c.startswith('%s is EACH(' % base) and E in c:
                 hit = t
+            elif c in ANY:
+                hit = t
+                inner.append((c, t))
         other = [c for c, t, p in ps.order if c not in (
             'ITER(%s)' % tree, E, '%s[0] is %s' % (E, base), '%s is %s[0]' % (base, E))
+            and c not in ANY
             and not (c.startswith('ITER(') and E in c)
             and not ((c.startswith('EACH(') or c.startswith('%s is EACH(' % base))
                      and E in c and (' is %s' % base in c or c.startswith(base)))]
